@@ -308,6 +308,8 @@ def rule_inc(R):
     rem = outq.role_fn(f, "retained_removal")
     rrem = outq.role_fn(f, "release_removal")
     pkt = param_packet(hb)
+    outq.clause_removal_result(R, "inc/retained-removal-reports-removal", rem, "retained")
+    outq.clause_removal_result(R, "inc/release-removal-reports-removal", rrem, "pending_release")
     incs = [x for x in quota_stores(f, "send_quota") if x[0].name == hb.name]
     by_arm = {}
     for (b, bb, v, span) in incs:
@@ -404,7 +406,13 @@ def reason_hook(arm):
     return hook
 
 
+def rule_negotiated(R):
+    """the window is the one granted by the CONNACK of this connection"""
+    roles.clause_negotiated_per_connection(R, "init", ("send_quota", "max_send_quota"))
+
+
 def run(R):
+    R.rule("negotiated", rule_negotiated)
     R.rule("who", rule_who)
     R.rule("init", rule_init)
     R.rule("dec", rule_dec)
